@@ -29,6 +29,18 @@ def rows : List (String × Row) := [
   ("ConvertS", { sig := [Ty.error], stack := .defaultStack, dtag := .empty, src := .empty, msg := .origErr 0, err := .param 0, shortCircuit := true })
 ]
 
+/-- the sections `(*GError).Error()` writes, in order -/
+def errorParts : List String := ["name", "dtag", "source", "message", "stack"]
+
+/-- the fields of `var ErrUnknown = FactoryOf(&GError{…})` in utils.go -/
+def errUnknownFields : List (String × String) := [("Name", "ErrUnknown"), ("Message", "tried to operate on non gerror.Error")]
+
+/-- `ExtMsgf`: index of the parameter asserted to `Factory`; on success the method called on it with
+these parameters (and whether the last is spread with `...`); otherwise receiver, method, parameters -/
+def extMsgfAsserts : Nat := 0
+def extMsgfFactoryBranch : String × List Nat × Bool := ("Msg", [1, 2], true)
+def extMsgfElseBranch : String × String × List Nat := ("ErrUnknown", "Convert", [0])
+
 /-- every store in the code a derivation runs (CloneBase, every method of `*GError`, and all package
 functions they reach): (function, written expression, where it lives) -/
 def stores : List (String × String × StoreClass) := [
